@@ -169,13 +169,17 @@ def compare(mode, how, pats, ex, fs, ref, res, want_counts=None):
                                            {'match_by_translated_regexes': c2.accs[0]}))
 
 
-def do_lists(mode, res, max_inc, max_exc, sh, ns):
+def do_lists(mode, res, max_inc, max_exc, sh, ns, residue=None):
     pool, excl = POOL[mode], EXCL[mode]
     k = 0
     for fs0 in FLAGSETS[mode]:
         for ni in range(0, max_inc + 1):
             for inc in itertools.product(pool, repeat=ni):
+                if ni >= 3 and residue is not None and run.residue('|'.join(inc), residue[1]) != residue[0]:
+                    continue      # thorough: a seed-chosen residue class of the three-inclusion lists
                 for ne in range(0, max_exc + 1):
+                    if ni >= 3 and ne >= 2:
+                        continue  # three inclusions with at most one exclusion, two exclusions with at most two inclusions
                     for exs in itertools.product(excl, repeat=ne):
                         if not inc and not exs:
                             continue
@@ -308,14 +312,17 @@ def plan(tier, seed):
     else:
         mi, me = 3, 2
     NS = 24 if tier == 'quick' else 64
+    residue = None if tier == 'quick' else (seed % 8, 8)
     for mode in ('fn', 'glob'):
         for sh in range(NS):
-            chunks.append(('lists', mode, mi, me, sh, NS))
+            chunks.append(('lists', mode, mi, me, sh, NS, residue))
         chunks.append(('braces', mode))
     return {
         'chunks': chunks,
         'coverage': {'pools': POOL, 'exclusion_pool': EXCL, 'flagsets': FLAGSETS, 'max_inclusions': mi,
-                     'max_exclusions': me, 'brace_templates': [b for b, _ in BRACES], 'exhaustive': True,
+                     'max_exclusions': me, 'brace_templates': [b for b, _ in BRACES], 'exhaustive': tier == 'quick',
+                     'partial_layer': None if tier == 'quick' else 'lists of three inclusions: residue class %d of 8 (by seed), with at most '
+                     'one exclusion; lists with two exclusions have at most two inclusions; everything smaller is complete' % (seed % 8),
                      'presentations': ['inline-last', 'inline-first', 'duplicated', 'reversed', 'split', 'exclude=',
                                        'exclude=vs-inline', 'negateall', 'bang-under-minusnegate', 'brace']},
         'rule': 'every ordered list of up to max_inclusions pool patterns and up to max_exclusions exclusion patterns x '
@@ -355,8 +362,8 @@ def run_chunk(chunk):
         do_realpath(res)
         do_winsplit(res)
     elif chunk[0] == 'lists':
-        _k, mode, mi, me, sh, ns = chunk
-        do_lists(mode, res, mi, me, sh, ns)
+        _k, mode, mi, me, sh, ns, residue = chunk
+        do_lists(mode, res, mi, me, sh, ns, residue)
     else:
         do_braces(chunk[1], res)
     impl.clear()
